@@ -8,6 +8,7 @@ CONSTANTS
   Kinds = {}
   RestartResizes = FALSE
   AnonModes = {FALSE}
+  Faults = TRUE
   AllowWindow = TRUE
   EmitEdges = FALSE
 INVARIANTS NothingLostEvenInWindow
